@@ -811,4 +811,6 @@ WITNESSES = [
      "new": "\t\t} else {\n\t\t\t*((uint32_t *)(err_pdu->rest + err_pdu->len_enc_pdu)) = lrtr_convert_long(\n\t\t\t\ttarget_byte_order, *((uint32_t *)(err_pdu->rest + err_pdu->len_enc_pdu)));\n\t\t\terr_pdu->len_enc_pdu = lrtr_convert_long(target_byte_order, err_pdu->len_enc_pdu);\n\t\t}"},
     {"id": "C04.w-size-check-on-the-header-copy", "rule": "C04.R2", "file": PK,
      "old": "\tif (rtr_pdu_check_size(pdu) == false) {", "new": "\tif (rtr_pdu_check_size(&header) == false) {"},
+    {"id": "C04.w-tcp-recv-hands-zero-to-the-loop", "rule": "C04.R5", "file": "rtrlib/transport/tcp/tcp_transport.c",
+     "old": "\tif (rtval == 0)\n\t\treturn TR_CLOSED;\n", "new": ""},
 ]
